@@ -1,16 +1,22 @@
 (* C08 - partitioning regroups operations without changing the program.
-   Only statements closed by `exact`; proofs live in part/PartCheck.v and part/QuickThm.v. *)
+   Only statements closed by `exact`; proofs live in part/PartCheck.v, part/QuickMerge.v,
+   part/QuickInv.v and part/QuickThm.v.
+
+   Spec: part/PartSpec.v (good_partition).  Model of QuickPartitioner.run: part/Quick.v
+   (`quick k fx nq ncyc ops hints`; fx = false is the unchanged code, `hints` replays the
+   iteration order of the `overlapping_bins` sets, the theorems hold for every order). *)
 From Coq Require Import List Arith Bool NArith ZArith Permutation.
 Import ListNotations.
-From BQ Require Import lib.Trace part.PartSpec part.PartCheck.
+From BQ Require Import lib.Trace part.PartSpec part.PartCheck part.Quick
+  part.QuickLemmas part.QuickMerge part.QuickInv part.QuickThm.
 
-(* The executable oracle that is run on the output of every partitioner is sound. *)
+(* ---- the verified oracle (run on the output of every partitioner) ---- *)
 Theorem C08_check_sound : forall k i o,
   check_partition k i o = true -> good_partition k i o.
 Proof. exact check_partition_sound. Qed.
 
-(* ... and a good partition has the same meaning as its input in every semantics in which
-   operations on disjoint qudits commute (matrices, in particular). *)
+(* a good partition has the same meaning as its input in every semantics in which
+   operations on disjoint qudits commute (matrices in particular) *)
 Theorem C08_good_partition_same_unitary :
   forall (M : Type) (mul : M -> M -> M) (one : M) (den : op -> M),
   (forall x y z, mul x (mul y z) = mul (mul x y) z) ->
@@ -21,10 +27,94 @@ Theorem C08_good_partition_same_unitary :
   good_partition k i o -> sem M mul one den (unfold o) = sem M mul one den i.
 Proof. exact good_partition_same_unitary. Qed.
 
-(* non-vacuity: the oracle accepts a regrouping and rejects a reordering / an absorbed barrier *)
 Example C08_check_nonvacuous :
   let h := mkOp 1 [0] 0 KGate in let cx := mkOp 2 [0;1] 0 KGate in let b := mkOp 3 [1] 0 KBarrier in
   check_partition 2 [h; cx; b] [Block [0;1] [h; cx]; Leaf b] = true /\
   check_partition 2 [h; cx; b] [Block [0;1] [cx; h]; Leaf b] = false /\
   check_partition 2 [h; cx; b] [Block [0;1] [h; cx; b]] = false.
 Proof. repeat split; vm_compute; reflexivity. Qed.
+
+(* ---- QuickPartitioner ---- *)
+
+(* The key lemma.  `inv k c pre st` (part/QuickInv.v) says, for the state after the
+   operations `pre` of the input `c`: every live bin is a SLAB (its operations on each of
+   its qudits q are exactly the input's operations on q in cycles [starts q, ends q]),
+   the emitted circuit restricted to q is exactly the input's operations on q left of
+   dividing_line[q], and emitted + live operations are a permutation of `pre`.
+   Emitting a pending bin whose starts equal the dividing line keeps all of this
+   (in particular the emitted timelines stay prefixes of the input's timelines). *)
+Theorem C08_emit_order : forall k ncyc c,
+  ordered c -> (forall x, In x c -> (fst x < ncyc)%Z) ->
+  forall pre st b,
+  inv k c pre st -> In b (bins st) -> In (bid b) (pend st) -> ready (dl st) b = true ->
+  inv k c pre (emit ncyc b st).
+Proof. exact emit_inv. Qed.
+
+(* the merge-with-rear loop changes neither timelines nor the multiset of operations
+   and keeps blocks well-formed *)
+Theorem C08_merge_rear_preserves : forall k fuel o loc body o' loc' body',
+  Forall (block_ok k) o -> Forall no_barrier_inside o ->
+  block_ok k (Block loc body) -> (forall x, In x body -> okind x = KGate) ->
+  merge_loop fuel o loc body = (o', loc', body') ->
+  merge_ok k o loc body o' loc' body'.
+Proof. exact merge_rear_preserves. Qed.
+
+(* the main loop keeps the invariant (every bin a slab, ...), whatever the block size,
+   the set-iteration order and the barrier repair flag *)
+Theorem C08_quick_slab_inv : forall k ncyc c,
+  ordered c -> (forall x, In x c -> (fst x < ncyc)%Z) ->
+  (forall x, In x c -> NoDup (oloc (snd x))) -> (forall x, In x c -> oloc (snd x) <> []) ->
+  forall fx ops pre hints st st',
+  c = pre ++ ops -> inv k c pre st ->
+  run_ops k fx ncyc ops hints st = inl st' -> inv k c c st'.
+Proof. exact run_ops_inv. Qed.
+
+(* The full statement: QuickPartitioner always returns, and returns a good partition. *)
+Definition C08_quick_correct_full (fx : bool) : Prop :=
+  forall k nq ncyc c hints, 2 <= k -> wf_input nq ncyc c ->
+  (forall st o, In o (map snd c) -> True) ->
+  exists o, quick k fx nq ncyc c hints = inl o /\ good_partition k (map snd c) o.
+
+(* What is proved: correctness GIVEN that all bins are emitted (no RuntimeError).
+   Holds for every circuit, every block size (k >= 2 is not even needed), every
+   iteration order, and for the unchanged as well as the repaired code. *)
+Theorem C08_quick_correct_partial : forall k fx nq ncyc c hints o,
+  wf_input nq ncyc c ->
+  quick k fx nq ncyc c hints = inl o ->
+  good_partition k (map snd c) o /\ all_gates_blocked o.
+Proof. exact quick_correct_partial. Qed.
+
+Theorem C08_quick_same_unitary : forall k fx nq ncyc c hints o
+  (M : Type) (mul : M -> M -> M) (one : M) (den : op -> M),
+  (forall x y z, mul x (mul y z) = mul (mul x y) z) ->
+  (forall x, mul one x = x) ->
+  (forall a b, indep op oloc a b -> mul (den a) (den b) = mul (den b) (den a)) ->
+  wf_input nq ncyc c ->
+  quick k fx nq ncyc c hints = inl o ->
+  sem M mul one den (unfold o) = sem M mul one den (map snd c).
+Proof. exact quick_same_unitary. Qed.
+
+(* The liveness half (C08_quick_all_emitted: "the RuntimeError is unreachable") is FALSE
+   for the unchanged code: on  CX(0,1); barrier(1); CX(1,2); barrier(2,3); CX(0,3)
+   with block size 3 the faithful model - and the implementation - end with pending bins. *)
+Theorem C08_quick_all_emitted_refuted :
+  wf_input 4 5 deadlock_circuit /\
+  quick 3 false 4 5 deadlock_circuit deadlock_hints = inr EPending.
+Proof. exact quick_all_emitted_refuted. Qed.
+
+(* non-vacuity: a well-formed circuit with a barrier and a 3-qudit gate on which the
+   unchanged model returns a partition (so the hypotheses of C08_quick_correct_partial are
+   satisfiable), and the repaired model (fx = true) partitions the deadlock witness *)
+Example C08_quick_nonvacuous :
+  let c := [(0%Z, cx 0 1); (0%Z, mkOp 3 [2] 1 KGate); (1%Z, mkOp 4 [1; 2; 3] 1 KGate);
+            (2%Z, bar [0; 1]); (3%Z, cx 0 1)] in
+  wf_input 4 4 c /\
+  quick 2 false 4 4 c [[]; []; [0; 1]; [0; 2]; []] =
+    inl [Block [0; 1] [cx 0 1]; Block [2] [mkOp 3 [2] 1 KGate]; Block [1; 2; 3] [mkOp 4 [1; 2; 3] 1 KGate];
+         Leaf (bar [0; 1]); Block [0; 1] [cx 0 1]].
+Proof. split; [apply wf_inputb_sound; vm_compute; reflexivity| vm_compute; reflexivity]. Qed.
+
+Example C08_quick_fixed_on_witness :
+  quick 3 true 4 5 deadlock_circuit deadlock_hints =
+  inl [Block [0; 1] [cx 0 1]; Leaf (bar [1]); Block [1; 2] [cx 1 2]; Leaf (bar [2; 3]); Block [0; 3] [cx 0 3]].
+Proof. exact quick_fixed_on_witness. Qed.
